@@ -97,7 +97,7 @@ var properties = map[string]propSpec{
 		Rule:       "seeded live-cluster runs with 4-8 client goroutines submitting Update/Read/DirtyRead/Barrier tasks to any node, with leader changes, partitions, restarts, transfers, self-demotion; history recorded at the API boundary (call before submit, return after Done; operations that never return stay open); non-trivial if at least 300 client operations completed and at least one leader change happened; distinct = distinct abstract trace",
 		Nontrivial: all(ge("client-ops", 300), ge("leaders-elected", 2)),
 		MinQuick:   20, MinThorough: 200,
-		Counters:    []string{"client-ops", "client-ops-open", "reads-checked", "leader-reads-checked", "real-time-pairs-covered", "global-sequence-length", "leaders-elected", "transfers-succeeded"},
+		Counters:    []string{"porcupine-ok", "porcupine-operations", "porcupine-timeout", "client-ops", "client-ops-open", "reads-checked", "leader-reads-checked", "real-time-pairs-covered", "global-sequence-length", "leaders-elected", "transfers-succeeded"},
 		Prefixes:    []string{"client-ret:", "client-op:"},
 		Assumptions: stdAssumptions,
 	},
